@@ -82,7 +82,7 @@ def gen_mip(ch):
         a["start"] = s_
     if e_:
         a["end"] = e_
-    if ch.pick("mkt.same_window", [False, True]):   # then some intervals contain no active asset at all
+    if ch.free("mkt.same_window", [False, True]):   # then some intervals contain no active asset at all (free: combined with every life time)
         for k in ("start", "end"):
             if k in a:
                 assets[0][k] = a[k]
